@@ -27,7 +27,10 @@ func verifGraph(n int, withUndefined bool) (*types.Project, [][]bool, bool) {
 			undefined = true
 			deps["zz"] = types.ProcessDependency{Condition: types.ProcessConditionStarted}
 		}
-		procs[verifNodeNames[i]] = types.ProcessConfig{Name: verifNodeNames[i], ReplicaName: verifNodeNames[i], Replicas: 1, DependsOn: deps}
+		// the process that may name an undefined dependency is enabled or disabled: a dangling
+		// (or cyclic) depends_on is rejected either way
+		disabled := withUndefined && i == 0 && verifBool("p0_disabled")
+		procs[verifNodeNames[i]] = types.ProcessConfig{Name: verifNodeNames[i], ReplicaName: verifNodeNames[i], Replicas: 1, DependsOn: deps, Disabled: disabled}
 	}
 	return &types.Project{Processes: procs}, adj, undefined
 }
